@@ -7,6 +7,7 @@ UNITS = list(tu.UNITS)
 UNITS.append(dict(id="tree_new", harness="../C18/misc2.c", entry="h_tree_new", sources=["ptree.c", "ptree-bst.c", "ptree-rb.c", "ptree-avl.c"], enforce=None, replace=[], defines=["UNIT_TREE_NEW"], canaries=2, timeout=300,
                   functions=["p_tree_new_full", "p_tree_free"], cbmc_flags=["--unwind", "4", "--unwinding-assertions", "--object-bits", "10"]))
 UNITS += tu.ROT_UNITS
+UNITS += tu.SEQ_UNITS
 REQUIRE_CONFIGURED = ["ptree.c", "ptree-bst.c", "ptree-rb.c", "ptree-avl.c"]
 TECHNIQUE = "BOUNDED stand-in (not an unbounded proof): CBMC on the real ptree*.c from every well-formed tree up to a height bound (BST/ptree.c: 3 quick, 4 thorough; RB/AVL: 2 quick, 3 thorough), one symbolic operation, full re-validation; unwinding assertions on.  UNBOUNDED part: the six rotation functions (loop-free) on a symbolic node window with subtrees of any size and ghost height (units rot_*)"
 LEVEL_TEXT = ("C12 focus: sorted-map view (membership/value of a ghost probe key, count, ascending traversal, early stop leaves the tree unchanged, clear). Heap-shape induction is not expressible in CBMC contracts (no inductive heap predicates), so the per-operation step is checked from EVERY well-formed tree "
